@@ -53,6 +53,13 @@ def param_to_identifier(name, value):
     return Identifier(value)
 
 
+def check_is_select(node, clause):
+    # `( select ... union select ... )` is reduced to the `select` rule too: clauses can't be attached to it
+    if not isinstance(node, Select):
+        raise ParsingException(f'{clause} can be applied to SELECT only, got: {node.__class__.__name__}')
+    return node
+
+
 def variable_token_to_name(value):
     # remove the sigil and the quotes of a variable token
     value = value.lstrip('@')
@@ -697,6 +704,8 @@ class MindsDBParser(Parser):
             type = p[1].parts[-1]
         else:
             type = p[1]
+        if not isinstance(type, str):
+            raise ParsingException(f'Wrong object type in DESCRIBE: {p[1].to_string()}')
         type = type.replace(' ', '_')
         return Describe(value=p[2], type=type)
 
@@ -1077,7 +1086,7 @@ class MindsDBParser(Parser):
     # WITH
     @_('ctes select')
     def select(self, p):
-        select = p.select
+        select = check_is_select(p.select, 'WITH')
         select.cte = p.ctes
         return select
 
@@ -1113,14 +1122,14 @@ class MindsDBParser(Parser):
     # SELECT
     @_('select FOR UPDATE')
     def select(self, p):
-        select = p.select
+        select = check_is_select(p.select, 'FOR UPDATE')
         ensure_select_keyword_order(select, 'MODE')
         select.mode = 'FOR UPDATE'
         return select
 
     @_('select OFFSET constant')
     def select(self, p):
-        select = p.select
+        select = check_is_select(p.select, 'OFFSET')
         if select.offset is not None:
             raise ParsingException(f'OFFSET already specified for this query')
         ensure_select_keyword_order(select, 'OFFSET')
@@ -1132,7 +1141,7 @@ class MindsDBParser(Parser):
 
     @_('select LIMIT constant COMMA constant')
     def select(self, p):
-        select = p.select
+        select = check_is_select(p.select, 'LIMIT')
         ensure_select_keyword_order(select, 'LIMIT')
         if not isinstance(p.constant0.value, int) or not isinstance(p.constant1.value, int):
             raise ParsingException(f'LIMIT must have integer arguments, got: {p.constant0.value}, {p.constant1.value}')
@@ -1142,7 +1151,7 @@ class MindsDBParser(Parser):
 
     @_('select LIMIT constant')
     def select(self, p):
-        select = p.select
+        select = check_is_select(p.select, 'LIMIT')
         ensure_select_keyword_order(select, 'LIMIT')
         if not isinstance(p.constant.value, int):
             raise ParsingException(f'LIMIT must be an integer value, got: {p.constant.value}')
@@ -1151,7 +1160,7 @@ class MindsDBParser(Parser):
 
     @_('select ORDER_BY ordering_terms')
     def select(self, p):
-        select = p.select
+        select = check_is_select(p.select, 'ORDER BY')
         ensure_select_keyword_order(select, 'ORDER BY')
         select.order_by = p.ordering_terms
         return select
@@ -1194,12 +1203,13 @@ class MindsDBParser(Parser):
 
     @_('select USING kw_parameter_list')
     def select(self, p):
-        p.select.using = p.kw_parameter_list
-        return p.select
+        select = check_is_select(p.select, 'USING')
+        select.using = p.kw_parameter_list
+        return select
 
     @_('select HAVING expr')
     def select(self, p):
-        select = p.select
+        select = check_is_select(p.select, 'HAVING')
         ensure_select_keyword_order(select, 'HAVING')
         having = p.expr
         if not isinstance(having, Operation):
@@ -1210,7 +1220,7 @@ class MindsDBParser(Parser):
 
     @_('select GROUP_BY expr_list')
     def select(self, p):
-        select = p.select
+        select = check_is_select(p.select, 'GROUP BY')
         ensure_select_keyword_order(select, 'GROUP BY')
         group_by = p.expr_list
         if not isinstance(group_by, list):
@@ -1221,7 +1231,7 @@ class MindsDBParser(Parser):
 
     @_('select WHERE expr')
     def select(self, p):
-        select = p.select
+        select = check_is_select(p.select, 'WHERE')
         ensure_select_keyword_order(select, 'WHERE')
         where_expr = p.expr
         if not isinstance(where_expr, Operation):
@@ -1234,7 +1244,7 @@ class MindsDBParser(Parser):
        'select FROM join_tables_implicit',
        'select FROM join_tables')
     def select(self, p):
-        select = p.select
+        select = check_is_select(p.select, 'FROM')
         ensure_select_keyword_order(select, 'FROM')
         select.from_table = p[2]
         return select
